@@ -23,6 +23,8 @@ type mutant struct {
 		Old string `json:"old"`
 		New string `json:"new"`
 	} `json:"more"` // further replacements in the same file (e.g. an import that becomes unused)
+	ReplaceAll bool     `json:"replace_all"` // replace every occurrence of Old (benign renames)
+	Props      []string `json:"props"`       // benign refactorings: the properties whose checks must stay silent
 	Expect string `json:"expect_rule"` // substring of the rule id expected in the report
 	Note   string `json:"note"`
 }
@@ -129,6 +131,67 @@ func runSensitivity(r *Report) {
 			fmt.Printf("SENSITIVITY: the checker for %s no longer detects seeded mutant %s (%s)\n", r.Property, m.Name, m.Note)
 		}
 	}
+	// behaviour-preserving refactorings: the check must stay silent on them
+	benign, _ := filepath.Glob(filepath.Join(verifDir(), "mutants", "benign", "*.json"))
+	sort.Strings(benign)
+	falseAlarms := 0
+	nBenign := 0
+	for _, mf := range benign {
+		var m mutant
+		b, err := os.ReadFile(mf)
+		if err != nil || json.Unmarshal(b, &m) != nil {
+			continue
+		}
+		want := false
+		for _, pr := range m.Props {
+			if pr == r.Property {
+				want = true
+			}
+		}
+		if !want {
+			continue
+		}
+		name := "benign/" + strings.TrimSuffix(filepath.Base(mf), ".json")
+		target := filepath.Join(scratch, m.File)
+		orig, err := os.ReadFile(filepath.Join(repoRoot, m.File))
+		if err != nil || strings.Count(string(orig), m.Old) < 1 || (!m.ReplaceAll && strings.Count(string(orig), m.Old) != 1) {
+			results = append(results, mutantResult{name, "not-applicable", ""})
+			continue
+		}
+		cnt := 1
+		if m.ReplaceAll {
+			cnt = -1
+		}
+		mutated := strings.Replace(string(orig), m.Old, m.New, cnt)
+		for _, e := range m.More {
+			mutated = strings.Replace(mutated, e.Old, e.New, cnt)
+		}
+		os.WriteFile(target, []byte(mutated), 0o644)
+		cmd := exec.Command(exe, "check", "-property", r.Property, "-tier", "quick", "-repo", scratch, "-no-evidence")
+		cmd.Env = append(os.Environ(), "VERIF_DIR="+verifDir())
+		out, _ := cmd.CombinedOutput()
+		os.WriteFile(target, orig, 0o644)
+		nBenign++
+		switch {
+		case strings.Contains(string(out), "does not load/type-check"):
+			results = append(results, mutantResult{name, "does-not-build", ""})
+		case strings.Contains(string(out), "VIOLATION property="):
+			falseAlarms++
+			first := ""
+			for _, ln := range strings.Split(string(out), "\n") {
+				if strings.Contains(ln, "[C") {
+					first = ln
+					break
+				}
+			}
+			results = append(results, mutantResult{name, "FALSE-ALARM", first})
+			fmt.Printf("SENSITIVITY: the checker for %s raises an alarm on behaviour-preserving refactoring %s: %s\n", r.Property, name, first)
+		default:
+			results = append(results, mutantResult{name, "silent (as it must)", ""})
+		}
+	}
+	r.Stats["benign_refactorings_tried"] = nBenign
+	r.Stats["benign_refactorings_alarmed"] = falseAlarms
 	// independently written seeded changes (sub-agents) that this property's check is expected to catch
 	seeds, _ := filepath.Glob(filepath.Join(verifDir(), "seeded", "*", "meta.json"))
 	sort.Strings(seeds)
